@@ -14,6 +14,8 @@ import (
 
 type C04Case struct {
 	A, B *World
+	// StopOnError: list and diff run with the stop-on-first-error option (the inputs are clean: it must not matter)
+	StopOnError bool `json:",omitempty"`
 }
 
 // editWorld applies 1-4 drawn edits to a clone of w.
@@ -167,7 +169,7 @@ func genC04(t *rapid.T) *C04Case {
 			a.NPs = append(a.NPs, p)
 		}
 	}
-	c := &C04Case{A: a}
+	c := &C04Case{A: a, StopOnError: rapid.IntRange(0, 3).Draw(t, "stoponerr") == 0}
 	if rapid.IntRange(0, 3).Draw(t, "independent") == 0 {
 		c.B = GenWorld(t, GenCfg{NoNamedRisk: true})
 	} else {
@@ -201,7 +203,7 @@ func checkC04(c *C04Case, st *VStats) *VFailure {
 	da, db := c.A.WriteDir(), c.B.WriteDir()
 	defer os.RemoveAll(da)
 	defer os.RemoveAll(db)
-	ra, rb := RunList(da, ListOpts{}), RunList(db, ListOpts{})
+	ra, rb := RunList(da, ListOpts{StopOnError: c.StopOnError}), RunList(db, ListOpts{StopOnError: c.StopOnError})
 	if ra.Panic != nil || rb.Panic != nil {
 		return &VFailure{Msg: fmt.Sprintf("list panicked: %v %v", ra.Panic, rb.Panic), Sig: "panic"}
 	}
@@ -209,7 +211,7 @@ func checkC04(c *C04Case, st *VStats) *VFailure {
 		st.Class("skip: a list run returned an error")
 		return nil
 	}
-	d := RunDiff(da, db, DiffOpts{})
+	d := RunDiff(da, db, DiffOpts{StopOnError: c.StopOnError})
 	if d.Panic != nil {
 		return &VFailure{Msg: fmt.Sprintf("diff panicked: %v", d.Panic), Sig: "panic"}
 	}
@@ -217,7 +219,7 @@ func checkC04(c *C04Case, st *VStats) *VFailure {
 		return vfail("diff fails where both list runs succeed: %v", d.Err)
 	}
 	// diff(A,A) is empty
-	self := RunDiff(da, da, DiffOpts{})
+	self := RunDiff(da, da, DiffOpts{StopOnError: c.StopOnError})
 	if self.Panic != nil || self.Err != nil {
 		return vfail("diff(A,A) fails: %v %v", self.Panic, self.Err)
 	}
@@ -360,7 +362,7 @@ func checkC04(c *C04Case, st *VStats) *VFailure {
 		}
 	}
 	// symmetry
-	rev := RunDiff(db, da, DiffOpts{})
+	rev := RunDiff(db, da, DiffOpts{StopOnError: c.StopOnError})
 	if rev.Panic != nil || rev.Err != nil {
 		return vfail("diff(B,A) fails: %v %v", rev.Panic, rev.Err)
 	}
